@@ -1,6 +1,6 @@
 CONSTANTS
   Def = "en"
-  NonDef = {"fr", "de", "es"}
+  NonDef = {"fr", "de", "es", "it"}
 SPECIFICATION MCSpec
 INVARIANTS FallbackOK ResolvedIsDefining EmitCases
 PROPERTY Termination
